@@ -390,14 +390,20 @@ Definition split_spec (c : CubicBez R) (n : nat) : list (CubicBez R) :=
 
 Ltac list_eq := repeat match goal with |- @eq (list _) (_ :: _) (_ :: _) => f_equal end.
 
+Lemma sub_eq (c : CubicBez R) a b a' b' : a = a' -> b = b' -> cubic_subsegment c a b = cubic_subsegment c a' b'.
+Proof. intros -> ->. reflexivity. Qed.
+
 Lemma split_into_n_small (c : CubicBez R) :
   split_into_n c 1 = split_spec c 1 /\ split_into_n c 2 = split_spec c 2 /\ split_into_n c 3 = split_spec c 3 /\
   split_into_n c 4 = split_spec c 4 /\ split_into_n c 6 = split_spec c 6.
 Proof.
-  destruct c as [[x0 y0] [x1 y1] [x2 y2] [x3 y3]].
-  cbv [split_into_n split_spec map seq INR Nat.add fhalf].
-  tq_unfold.
-  repeat split; list_eq; rec_eq; field.
+  unfold split_spec. cbv [seq map split_into_n].
+  rewrite !cubic_subdivide_is_subsegment. cbv iota beta.
+  rewrite ?cubic_subdivide_is_subsegment, !cubic_subdivide_3_is_subsegment. cbv iota beta.
+  rewrite !subsegment_subsegment.
+  repeat split; list_eq.
+  - transitivity (cubic_subsegment c 0 1); [symmetry; apply subsegment_0_1 | apply sub_eq; cbv [INR Nat.add]; field].
+  all: apply sub_eq; cbv [INR Nat.add]; field.
 Qed.
 
 Lemma split_into_n_spec (c : CubicBez R) n : (1 <= n)%nat -> split_into_n c n = split_spec c n.
